@@ -84,10 +84,11 @@ def _is_colang_v2(content):
         bool: True if the content is likely a Colang 2.x file, False otherwise.
     """
 
-    # Remove content within triple quotes
-    content = re.sub(r'""".*?"""', "", content, flags=re.DOTALL)
-    # Remove content after #
-    content = re.sub(r"#.*$", "", content, flags=re.MULTILINE)
+    # Remove content within triple quotes, within strings and after #, in one pass from left
+    # to right: a quote inside a comment or a # inside a string must not be taken for a delimiter
+    content = re.sub(
+        r'""".*?"""|"[^"\n]*"|#[^\n]*', "", content, flags=re.DOTALL
+    )
     # Check for v1 keyword at the beginning of a line
     lines = content.split("\n")
     if any(re.match(r"^\s*define", line) for line in lines):
